@@ -532,6 +532,9 @@ def gen_cases(tier, seed):
                 if idle and rest in (500, 16500, 40000):
                     cases.append({"kind": "single", "plan": {"kind": "rest", "cfg": {"idle": idle, "sock": sock, "wft": 1}, "rest": rest,
                                                              "then_read": True, "seed": seed}})
+    # no socket_timeout, only idle_timeout: a peer that floods, says QUIT and never reads is still dropped for its silence
+    for rest in (70000, 120000):
+        cases.append({"kind": "single", "plan": {"kind": "rest", "cfg": {"idle": 4, "sock": None, "wft": 1}, "rest": rest, "then_quit": True, "seed": seed}})
     # wait_future_timeout=None: the wait for the data connection is not limited
     for idle in (None, 4):
         for sock in (None, 3):
